@@ -37,12 +37,36 @@ fn main() {
     if avoid_d31() {
         ctx.notes.push("VERIF_AVOID=D31: positional sub-patterns on void payloads are not generated".into());
     }
-    let verdicts = par_map(&cases, |c| {
-        let prog = match_program(&u, &c.ty, &some_value(&u, &c.ty), &c.arms, None);
-        checker_verdict(&prog)
+    placement_selftest(&u, &mut ctx);
+    // placement dimension (D70): case i sits at placement (i + 5) mod 17; every third case is also
+    // checked at the let-initialiser placement and both verdicts must agree
+    let idx: Vec<usize> = (0..cases.len()).collect();
+    let verdicts = par_map(&idx, |&i| {
+        let c = &cases[i];
+        let pl = (i + 5) % PLACEMENTS.len();
+        let prog = match_program_at(&u, &c.ty, &some_value(&u, &c.ty), &c.arms, pl);
+        let v = checker_verdict(&prog);
+        let base = if i % 3 == 0 && pl != 0 {
+            Some(checker_verdict(&match_program_at(&u, &c.ty, &some_value(&u, &c.ty), &c.arms, 0)))
+        } else {
+            None
+        };
+        (v, base)
     });
-    for (c, v) in cases.iter().zip(verdicts) {
-        let req = request(&u, "u", &c.ty, &c.arms);
+    for (i, (c, (v, base))) in cases.iter().zip(verdicts).enumerate() {
+        let pl = (i + 5) % PLACEMENTS.len();
+        ctx.count(&format!("placement:{}", PLACEMENTS[pl]));
+        if let Some(b) = &base {
+            ctx.count("placement-pairs-compared");
+            if verdict_key(b) != verdict_key(&v) {
+                ctx.spec_fail(format!(
+                    "verdict depends on where the match stands: match on {} with arms [{}] as {}: {} / as let-init: {}",
+                    u.ty_src(&c.ty), c.arms.iter().map(|p| u.pat_src(p)).collect::<Vec<_>>().join(" ; "),
+                    PLACEMENTS[pl], verdict_key(&v), verdict_key(b)
+                ));
+            }
+        }
+        let req = format!("{} #pl={}", request(&u, "u", &c.ty, &c.arms), PLACEMENTS[pl]);
         let arms_txt = c.arms.iter().map(|p| u.pat_src(p)).collect::<Vec<_>>().join(" ; ");
         ctx.count(&format!("origin:{}", c.origin));
         ctx.count(&format!("type:{}", head_kind(&c.ty)));
